@@ -263,13 +263,28 @@ def symbolic_block(kind, n, pre, dic, d, V, dom):
     return {'logZ': logZ, 'logq': logq, 'H': H, 'qparams': qparams}
 
 
+def unpack(task):
+    """task = (family, n, objective, json options, constructor samples[, call-time samples]).
+    -> family, n, objective, options, constructor shape, effective shape, keyword arguments of the request"""
+    fam, n, objective, oparams, shape = task[:5]
+    ctor = tuple(shape)
+    call = tuple(task[5]) if len(task) > 5 and task[5] else None
+    kw = {'samples': torch.Size(call)} if call else {}
+    return fam, n, objective, oparams, ctor, (call or ctor), kw
+
+
 def task_label(task):
-    fam, n, objective, oparams, shape = task
+    fam, n, objective, oparams, ctor, shape, kw = unpack(task)
+    if kw:
+        op = ''.join(f' {k}={v}' for k, v in sorted(oparams.items()))
+        return f'{fam} n={n} {objective}{op} constructed samples={list(ctor)} called samples={list(shape)}'
     op = ''.join(f' {k}={v}' for k, v in sorted(oparams.items()))
     return f'{fam} n={n} {objective}{op} samples={list(shape)}'
 
 
-def signature(objective, oparams, shape, what):
+def signature(objective, oparams, shape, what, override=False):
+    if override:  # constructed with one shape, called with samples=<another>
+        what = 'call-time-samples-override'
     kind = '[S]' if len(shape) == 1 else '[S,K]'
     name = objective + ('(entropy)' if oparams.get('entropy') else '')
     return f'{name}:{kind}:{what}'
@@ -361,14 +376,13 @@ def run_task(task, tr):
     from torchtree.distributions.distributions import Distribution
     from torchtree.distributions.joint_distribution import JointDistributionModel
 
-    fam, n, objective, oparams, shape = task
-    shape = tuple(shape)
+    fam, n, objective, oparams, ctor, shape, kw = unpack(task)
     label = task_label(task)
     tr.bounds['models'] = ('normal-normal (known variance), gamma-exponential, gamma-Poisson and beta-binomial (symbolic integer '
                            'data), LogNormal/LogNormal through lambda=exp(phi) with the Jacobian term (data as observations and as '
                            'factors in lambda), two-block mean-field products; n <= 2 observations quick / 3 thorough; '
                            'all hyper-parameters, data and draws symbolic')
-    tr.bounds['samples'] = 'sample shapes [S] and [S,K], S,K in {1,2,3}; VR alpha in {0,1/2,2} quick (+ -1,1/4,3 thorough); CUBO n in {2,3}'
+    tr.bounds['samples'] = 'sample shapes [S] and [S,K], S,K in {1,2,3}, given to the constructor or as a call-time samples= override of a different constructor shape ([S]->[S\'], [S,K]->[S\',K\'], [S]<->[S,K]); VR alpha in {0,1/2,2} quick (+ -1,1/4,3 thorough); CUBO n in {2,3}'
     tr.stubs.add('torch.distributions.Normal/Gamma/Beta .rsample/.sample: every call returns a tensor of fresh symbols z<k>[...] of '
                  'shape sample_shape + batch_shape, constrained only to the support (Gamma: z > 0; Beta: eps <= z <= 1 - eps)')
     tr.assumptions.add('the float constants log(K) (math.log(K), torch.tensor(float(K)).log()) and log(sqrt(2 pi)) in the code '
@@ -380,7 +394,7 @@ def run_task(task, tr):
                        'density identity proved does not use integrality')
     with tracing() as t:
         d = t.dag
-        obj, dic = build_all(fam, n, objective, dict(oparams), shape)
+        obj, dic = build_all(fam, n, objective, dict(oparams), ctor)
         tr.fn(type(obj)._call, CallableModel.__call__, Distribution.rsample, Distribution.sample, Distribution.log_prob,
               Distribution.entropy, Distribution._sample_shape, JointDistributionModel.log_prob,
               JointDistributionModel.rsample, JointDistributionModel.sample, JointDistributionModel.entropy,
@@ -412,11 +426,11 @@ def run_task(task, tr):
         ctx = {'task': task, 'label': label, 'tr': tr, 'd': d, 'V': V}
         with stubbed_sampler(make):
             try:
-                r1 = obj()
+                r1 = obj(**kw)
             except Exception as e:  # the real code raised on this configuration: confirm concretely
                 wit = {nm: d.vals[i] for nm, i in V.items()}
                 ok, detail = replay_value(task, wit)
-                sig = signature(objective, oparams, shape, 'mixes-samples' if objective == 'KLpq' and len(shape) == 2 else 'raises')
+                sig = signature(objective, oparams, shape, 'mixes-samples' if objective == 'KLpq' and len(shape) == 2 else 'raises', override=bool(kw))
                 if ok:
                     tr.witness_runs += 1
                     tr.violation(sig, f'{label}: {detail}', {'kind': 'value', 'task': list(task), 'label': label, 'values': wit})
@@ -431,12 +445,12 @@ def run_task(task, tr):
             for b in blocks:
                 for p_ in b['qparams']:
                     p_.fire_parameter_changed()
-            r2 = obj()
+            r2 = obj(**kw)
             c2 = calls[len(c1):]
             lp2, lq2 = obj.p(), obj.q()
             snap2 = (t.pcs[len(snap1[0]):], t.denominators[len(snap1[1]):], t.domains[len(snap1[2]):])
             # ---- back-to-back request without any event
-            obj()
+            obj(**kw)
             c3 = calls[len(c1) + len(c2):]
         tr.witness_runs += 1
         tr.ops_checked += t.nchecked
@@ -450,8 +464,14 @@ def run_task(task, tr):
         z2 = {d.args[i][0] for c in c2 for i in c['z']._ids.reshape(-1).tolist()}
         ok_calls = (len(c1) == nb and all(c['sample_shape'] == shape for c in c1)
                     and all(c['meth'] == ('sample' if objective == 'KLpq' else 'rsample') for c in c1))
-        if not ok_calls:
-            tr.inconc(f'{label}: unexpected sampler calls {[(c["cls"], c["meth"], c["sample_shape"]) for c in c1]}')
+        if not ok_calls:  # e.g. a call-time samples= override that is not honoured: confirm on the real classes
+            wit = {nm: d.vals[i] for nm, i in V.items()}
+            ok, detail = replay_value(task, wit)
+            if ok:
+                tr.violation(signature(objective, oparams, shape, 'draw-shape', override=bool(kw)), f'{label}: {detail}',
+                             {'kind': 'value', 'task': list(task), 'label': label, 'values': wit})
+            else:
+                tr.inconc(f'{label}: unexpected sampler calls {[(c["cls"], c["meth"], c["sample_shape"]) for c in c1]} ({detail})')
             return
         ctx.update(t=t, blocks=blocks, L=L, dom=dom, Vh=Vh)
         if not analyse(ctx, 'first request', r1, lp, lq, c1, snap1):
@@ -483,7 +503,7 @@ def run_task(task, tr):
                 wit = {nm: d.vals[i] for nm, i in V.items()}
                 ok, detail = replay_fresh(task, wit, fire=True)
                 if ok:
-                    tr.violation(signature(objective, oparams, shape, 'stale-draws'), f'{label}: {fl} fails: {detail}',
+                    tr.violation(signature(objective, oparams, shape, 'stale-draws', override=bool(kw)), f'{label}: {fl} fails: {detail}',
                                  {'kind': 'fresh', 'fire': True, 'task': list(task), 'label': label, 'values': wit})
                 else:
                     tr.inconc(f'{label}: "{fl}" fails symbolically but the concrete run is fresh ({detail})')
@@ -507,8 +527,7 @@ def run_task(task, tr):
 def analyse(ctx, which, r1, lp, lq, c1, snap):
     """obligations L1-L4 for one evaluation request; False when something was reported"""
     tr, d, t, task, label, blocks, L = ctx['tr'], ctx['d'], ctx['t'], ctx['task'], ctx['label'], ctx['blocks'], ctx['L']
-    fam, n, objective, oparams, shape = task
-    shape = tuple(shape)
+    fam, n, objective, oparams, ctor, shape, kw = unpack(task)
     pcs, dens, doms = snap
     nb = len(blocks)
     V = dict(ctx['Vh'])
@@ -531,7 +550,7 @@ def analyse(ctx, which, r1, lp, lq, c1, snap):
     shape_ok = tuple(lp.shape) == shape and tuple(lq.shape) == shape and r1.dim() == 0
     if not shape_ok:
         decide(ctx, f'{which}: model and variational log densities have the sample shape and the objective is a scalar', hyp0, d.FALSE,
-               signature(objective, oparams, shape, 'mixes-samples' if objective == 'KLpq' else 'shape'), kind='value')
+               signature(objective, oparams, shape, 'mixes-samples' if objective == 'KLpq' else 'shape', override=bool(kw)), kind='value')
         return False
     # -------------------------------------------------------------- L1 per-draw identities
     w = lp - lq
@@ -551,7 +570,7 @@ def analyse(ctx, which, r1, lp, lq, c1, snap):
         else:
             g = d.eq(wflat[i], L)
             gl = f'{which}: draw {i}: log p(z, data) - log q(z) == log Z'
-        st = decide(ctx, gl, hyp0 + ground_axioms(d, [g]) + binary_logit_axioms(d, [g]), g, signature(objective, oparams, shape, 'weight-differs-from-logZ'),
+        st = decide(ctx, gl, hyp0 + ground_axioms(d, [g]) + binary_logit_axioms(d, [g]), g, signature(objective, oparams, shape, 'weight-differs-from-logZ', override=bool(kw)),
                     kind='weights')
         lemmas.append(g)
         failed |= st != 'proved'
@@ -580,7 +599,7 @@ def analyse(ctx, which, r1, lp, lq, c1, snap):
         c_ab = abstract(d, amap, [c])[0]
         hy = (lem_ab if c_ab != c else hyp0)
         st = decide(ctx, f'{which}: decision taken on the run holds everywhere: {d.to_str(c, 3)[:120]}', hy + ground_axioms(d, [c_ab]), c_ab,
-                    signature(objective, oparams, shape, 'path-condition'), kind='value')
+                    signature(objective, oparams, shape, 'path-condition', override=bool(kw)), kind='value')
         clean &= st == 'proved'
     # ---- L3 the value
     if entropy:
@@ -602,7 +621,7 @@ def analyse(ctx, which, r1, lp, lq, c1, snap):
     flo = float_log_assumptions(d, objective, [shape[0], shape[-1], shape[0] * shape[-1]])
     hy = lem_ab + log_axioms(d, [g_ab], mapping, d.and_(*lem_ab)) + flo
     hy += ground_axioms(d, [g_ab] + hy)
-    sig = signature(objective, oparams, shape, 'value-differs-from-logZ')
+    sig = signature(objective, oparams, shape, 'value-differs-from-logZ', override=bool(kw))
     st, r, _ = prove(d, hy, g_ab, timeout=30.0, tr=tr, label=tl, parallel=True)
     if st == 'proved':
         stv, _, _ = prove(d, hy, d.FALSE, timeout=20.0, tr=tr, label='hypotheses satisfiable', parallel=True)
@@ -617,11 +636,11 @@ def analyse(ctx, which, r1, lp, lq, c1, snap):
                 g2 = abstract(d, amap, [d.eq(r1id, d.mul(d.const(mult), L))])[0]
                 st2, _, _ = prove(d, hy + ground_axioms(d, [g2]), g2, timeout=30.0, tr=tr, label=name, parallel=True)
                 if st2 == 'proved':
-                    sig = signature(objective, oparams, shape, name)
+                    sig = signature(objective, oparams, shape, name, override=bool(kw))
                     tl += f' [the solver proves value == {mult} * log Z instead]'
                     break
         if objective == 'KLpq' and len(shape) == 2:
-            sig = signature(objective, oparams, shape, 'mixes-samples')
+            sig = signature(objective, oparams, shape, 'mixes-samples', override=bool(kw))
         # replay at the witness point (the generalised query has no model over the real inputs)
         settle(ctx, tl, 'unknown' if st != 'refuted' else 'refuted-abstract', None, sig, 'value')
         clean = False
@@ -631,7 +650,7 @@ def analyse(ctx, which, r1, lp, lq, c1, snap):
     if obl:
         allok = d.and_(*obl)
         st = decide(ctx, f'{which}: every denominator is non-zero and every log/lgamma argument is positive',
-                    hyp0 + lemmas + ground_axioms(d, [allok]), allok, signature(objective, oparams, shape, 'well-defined'), kind='value')
+                    hyp0 + lemmas + ground_axioms(d, [allok]), allok, signature(objective, oparams, shape, 'well-defined', override=bool(kw)), kind='value')
         clean &= st == 'proved'
     return clean
 
@@ -790,9 +809,8 @@ def quadrature_logZ(cb):
 
 def real_setup(task, vals, perturb=False):
     """real objects on plain tensors with q at the numeric posterior; -> obj, dic, blocks(concrete), draw maker"""
-    fam, n, objective, oparams, shape = task
-    shape = tuple(shape)
-    obj, dic = build_all(fam, n, objective, dict(oparams), shape)
+    fam, n, objective, oparams, ctor, shape, kw = unpack(task)
+    obj, dic = build_all(fam, n, objective, dict(oparams), ctor)
     cbs = []
     for kind, pre in blocks_of(fam):
         cb = concrete_block(kind, n, pre, vals)
@@ -807,7 +825,7 @@ def real_setup(task, vals, perturb=False):
 
 
 def draw_maker(task, vals, cbs, log):
-    fam, n, objective, oparams, shape = task
+    fam, n, objective, oparams, ctor, shape, kw = unpack(task)
 
     def make(dist, meth, sample_shape):
         k = len(log)
@@ -833,7 +851,7 @@ def expected_value(task, cbs, log):
     """closed-form expectation (mpmath): log Z, or for ELBO(entropy) log Z + mean log q(z) + H"""
     import mpmath as mp
 
-    fam, n, objective, oparams, shape = task
+    fam, n, objective, oparams, ctor, shape, kw = unpack(task)
     logZ = sum(cb['logZ'] for cb in cbs)
     for cb in cbs:
         key = (cb['kind'], n, tuple(sorted((k, tuple(v)) for k, v in cb['T'].items())))
@@ -852,13 +870,17 @@ def expected_value(task, cbs, log):
 
 def replay_value(task, vals):
     """(mismatch?, detail): objective value on the real classes vs the mpmath oracle"""
+    fam, n, objective, oparams, ctor, shape, kw = unpack(task)
     obj, dic, cbs = real_setup(task, vals)
     log = []
     with stubbed_sampler(draw_maker(task, vals, cbs, log)):
         try:
-            r = obj()
+            r = obj(**kw)
         except Exception as e:
             return True, f'{type(obj).__name__}() raises {type(e).__name__}: {str(e)[:160]}'
+    if len(log) != len(cbs) or any(c['sample_shape'] != shape for c in log):
+        return True, (f'{type(obj).__name__}({"samples=" + str(list(shape)) if kw else ""}) asked the sampler for shapes '
+                      f'{[list(c["sample_shape"]) for c in log]}, not once per variational block with the requested {list(shape)}')
     want, wl = expected_value(task, cbs, log)
     if r.dim() != 0:
         return True, f'value has shape {tuple(r.shape)}'
@@ -873,7 +895,7 @@ def replay_weights(task, vals):
     """(mismatch?, detail): log p - log q at the draws vs log Z"""
     import mpmath as mp
 
-    fam, n, objective, oparams, shape = task
+    fam, n, objective, oparams, ctor, shape, kw = unpack(task)
     obj, dic, cbs = real_setup(task, vals)
     log = []
     mk = draw_maker(task, vals, cbs, log)
@@ -898,17 +920,17 @@ def replay_weights(task, vals):
 
 def replay_fresh(task, vals, fire):
     """(not fresh?, detail).  q is moved OFF the posterior so that the value depends on the draws."""
-    fam, n, objective, oparams, shape = task
+    fam, n, objective, oparams, ctor, shape, kw = unpack(task)
     obj, dic, cbs = real_setup(task, vals, perturb=True)
     log = []
     with stubbed_sampler(draw_maker(task, vals, cbs, log)):
-        v1 = obj()
+        v1 = obj(**kw)
         n1 = len(log)
         if fire:
             for kind, pre in blocks_of(fam):
                 for k in (('qm', 'qs') if SAMPLER[kind] == 'Normal' else ('qa', 'qb')):  # noqa: E501
                     dic[pre + k].fire_parameter_changed()
-        v2 = obj()
+        v2 = obj(**kw)
         n2 = len(log) - n1
         big = torch.Size([3] * len(shape))
         v3 = obj(samples=big) if not fire else None
@@ -917,7 +939,7 @@ def replay_fresh(task, vals, fire):
     obj_b, dic_b, cbs_b = real_setup(task, vals, perturb=True)
     log_b = [None] * n1
     with stubbed_sampler(draw_maker(task, vals, cbs_b, log_b)):
-        ref = obj_b()
+        ref = obj_b(**kw)
     if n2 == 0:
         return True, (f'two consecutive {type(obj).__name__}() requests: the sampler ran {n1} time(s) for the first and 0 times for '
                       f'the second, which returned the cached value {float(v2)!r} (first {float(v1)!r}; a fresh evaluation on new draws '
@@ -929,6 +951,12 @@ def replay_fresh(task, vals, fire):
 
 
 # ---------------------------------------------------------------------------------------- task lists
+OVERRIDE_OBJECTIVES = [('ELBO', {}), ('ELBO', {'entropy': True}), ('KLpq', {}), ('CUBO', {'n': 2.0}), ('VR', {'alpha': 0.5})]
+OVERRIDES_QUICK = [((2,), (3,)), ((3,), (1,)), ((2, 2), (2, 3)), ((2, 3), (3, 2)), ((2,), (2, 3)), ((2, 2), (3,))]
+OVERRIDES_THOROUGH = OVERRIDES_QUICK + [((1,), (2,)), ((1, 1), (2, 2)), ((3, 1), (1, 3)), ((2, 3), (2, 1)), ((3,), (3, 2)),
+                                        ((1, 2), (2,)), ((2, 2), (2, 2))]
+
+
 def tasks_for(tier):
     ts = []
     shapes1 = [(1,), (2,), (3,)]
@@ -945,6 +973,12 @@ def tasks_for(tier):
             for o, op in multi:
                 for sh in ((1, 2), (2, 1), (2, 2), (2, 3), (3, 2)):
                     ts.append((kind, 1 if sh != (2, 2) else 2, o, op, sh))
+        # constructed with one shape, called with samples=<another> (the convergence monitor's idiom)
+        for kind in ('normal', 'gamma_exp', 'lognormal_obs'):
+            for o, op in OVERRIDE_OBJECTIVES:
+                for ctor, call in OVERRIDES_QUICK:
+                    if not (op.get('entropy') and len(call) == 2):
+                        ts.append((kind, 2 if kind == 'normal' else 1, o, op, ctor, call))
         for fam in ('normal+gamma_exp', 'lognormal_obs+gamma_poisson', 'beta_binomial+lognormal_factor'):
             for o, op in [('ELBO', {}), ('ELBO', {'entropy': True}), ('KLpq', {}), ('VR', {'alpha': 0.5})]:
                 ts.append((fam, 1, o, op, (2,)))
@@ -958,6 +992,14 @@ def tasks_for(tier):
                         for sh in shapes2:
                             ts.append((kind, n, o, op, sh))
             ts.append((kind, 1, 'ELBO', {'entropy': True}, (2, 2)))  # the flag is ignored by the multi-sample branch
+        for kind in KINDS:
+            for n in (1, 2):
+                for o, op in OVERRIDE_OBJECTIVES + [('VR', {'alpha': 2.0}), ('CUBO', {'n': 3.0})]:
+                    for ctor, call in OVERRIDES_THOROUGH:
+                        if not (op.get('entropy') and len(call) == 2) and (n == 1 or (ctor, call) in OVERRIDES_QUICK):
+                            ts.append((kind, n, o, op, ctor, call))
+        ts.append(('normal+gamma_exp', 1, 'ELBO', {}, (2, 2), (2, 3)))
+        ts.append(('beta_binomial+lognormal_obs', 1, 'VR', {'alpha': 0.5}, (3,), (2,)))
         for i, ka in enumerate(KINDS):
             for kb in KINDS[i:]:
                 for o, op in [('ELBO', {}), ('ELBO', {'entropy': True}), ('KLpq', {}), ('CUBO', {'n': 2.0}), ('VR', {'alpha': 0.5})]:
@@ -984,7 +1026,7 @@ def do_replay(path):
     r = json.load(open(path))
     rp = r['replay']
     task = rp['task']
-    task = (task[0], int(task[1]), task[2], dict(task[3]), tuple(task[4]))
+    task = (task[0], int(task[1]), task[2], dict(task[3]), tuple(task[4])) + ((tuple(task[5]),) if len(task) > 5 and task[5] else ())
     kind = rp.get('kind', 'value')
     if kind == 'fresh':
         ok, detail = replay_fresh(task, rp['values'], fire=rp.get('fire', False))
